@@ -200,7 +200,28 @@ func checkC01(tier string) int {
 		// of the block before the block arrives and re-checks some while the block executes (node-local
 		// circumstances that are not part of the block sequence)
 		var lastSeen []byte
+		witnessKilled, witnessKills := false, 0
 		cfg.PerReplica = func(run *hist.Runner, h int64, idx int, base proto.Recipe, sofar *hist.Block) *proto.Recipe {
+			if idx == 1 {
+				// the witness validator is killed between the block end and the commit of a block that follows a lock
+				// or redeem (the block end is where trackers move on and where a witness queues its jobs): when it
+				// comes back, its job store has seen that block end once already
+				witnessKilled = false
+				if n := len(run.Blocks); n > 0 && h > 3 && witnessKills < 3 {
+					for _, t := range run.Blocks[n-1].Txs {
+						if t.Call.Code == 0 && (t.Kind == "ETH_REDEEM" || t.Kind == "ERC20_REDEEM" || t.Kind == "ETH_LOCK" || t.Kind == "ERC20_LOCK") {
+							witnessKilled = true
+						}
+					}
+				}
+				if witnessKilled {
+					witnessKills++
+					alt := base
+					alt.Crash = "after:EndBlock"
+					return &alt
+				}
+				return nil
+			}
 			if idx != 3 {
 				return nil
 			}
@@ -242,6 +263,26 @@ func checkC01(tier string) int {
 				}
 			}
 			for k := 1; k < len(run.Reps); k++ {
+				if k == 1 && witnessKilled && blk.Resp[1] == nil && run.Reps[1].Box.Dead {
+					// killed on purpose: it starts again, replays the block, and must arrive where the others are
+					r.Count("witness_killed_between_block_end_and_commit", 1)
+					if err := run.Reps[1].Box.Restart(); err != nil {
+						r.Violate(verdict.Violation{Signature: "C01/witness-cannot-restart", What: fmt.Sprintf("history seed %d: the witness validator, killed between EndBlock and Commit of block %d, does not start again: %v", hseed, blk.H, err), Witness: map[string]interface{}{"seed": hseed, "height": blk.H, "log": run.Reps[1].Box.LogTail(2500)}})
+						return true
+					}
+					var rep []proto.Call
+					for _, c := range run.Reps[1].Box.Boot.Calls {
+						if c.M == "BeginBlock" || c.M == "DeliverTx" || c.M == "EndBlock" || c.M == "Commit" {
+							rep = append(rep, c)
+						}
+					}
+					if idx, x, y := hist.FirstDiff(hist.ProjectResults(blk.Resp[0].Calls), hist.ProjectResults(rep)); idx >= 0 && len(rep) > 0 {
+						key, d := diffStates(fullDump(run.Reps[0].Box), fullDump(run.Reps[1].Box))
+						r.Violate(verdict.Violation{Signature: "C01/witness-replay/" + strings.ToLower(strings.SplitN(x+" ", " ", 2)[0]) + "/key:" + keyClass(key), What: fmt.Sprintf("history seed %d, block %d: the witness validator was killed between EndBlock and Commit and replayed the block: %q where %s has %q; first differing key %s", hseed, blk.H, y, run.Reps[0].Name, x, d), Witness: map[string]interface{}{"seed": hseed, "height": blk.H, "recipes": run.Recipes()}})
+						return true
+					}
+					continue
+				}
 				if blk.Resp[k] == nil {
 					r.Violate(verdict.Violation{Signature: "C01/replica-died/" + run.Reps[k].Name, What: fmt.Sprintf("replica %s died executing block %d while the leader did not", run.Reps[k].Name, blk.H), Witness: map[string]interface{}{"seed": hseed, "height": blk.H, "log": run.Reps[k].Box.LogTail(3000)}})
 					return true
